@@ -22,7 +22,7 @@ BASE = dict(
     TopUps=S(6), MaxSteps=5, MaxSess=1, Limit=100, Pads=S(0), CreateConts=S(0),
     TwoEntries=False, BadRefs=False, WellBehaved=False, AskAfterFinal=True, KnownDebitNoFui=True, Lrsn0=0, Recharges=True, Traffic=S(), SinkAnswers=S(204), AddrKinds=S("none"), ContShapes=S("single"), ChidModes=S(0), UpdNfcs="{FALSE}",
     Events=False, EvTypes=S(""), Faults=S("none"), BadCreates=S(),
-    BulkEvents=S(), OpCfgs="{[vl |-> 0, vlp |-> 0, qvt |-> 0, th |-> 512, mqcap |-> 0]}",
+    PlmnKinds=S(""), BulkEvents=S(), OpCfgs="{[vl |-> 0, vlp |-> 0, qvt |-> 0, th |-> 512, mqcap |-> 0]}",
 )
 
 # operator configurations (volumeLimit, volumeLimitPDU, quotaValidityTime, volumeThresholdRate * 1024)
@@ -186,6 +186,9 @@ def cfg(pid, tier):
         base = dict(Reqs=S(4), Vols=S(2), TopUps=S(), Recharges=False, AcctChoices=S((40, 1)))
         addr = sl("addr", 400 if q else 3000, MaxSess=2, MaxSteps=4 if q else 5, CreateConts=S(0), Modes=S("off"),
                   TrigSets=S("none"), AddrKinds=S("none", "v4", "v6", "fqdn", "all"), **base)
+        # the consumer's PLMN: two- and three-digit network codes, leading zeros, the test network
+        plmn = sl("plmn", 300 if q else 2000, MaxSess=2, MaxSteps=3 if q else 4, CreateConts=S(0), Modes=S("off"), TrigSets=S("none"),
+                  PlmnKinds=S("", "208/93", "310/012", "001/01", "001/001", "722/070", "999/999", "460/00"), **base)
         if q:
             slices = [
                 sl("sessions", 900, Subs=S("1", "2"), MaxSess=3, MaxSteps=4, CreateConts=S(0, 2), Modes=S("on", "off"),
@@ -194,7 +197,7 @@ def cfg(pid, tier):
                    TrigSets=S("none", "partial", "final"), **base),
                 sl("two-rg", 300, RGs=S("1", "2"), TwoEntries=True, MaxSess=2, MaxSteps=3, Modes=S("on", "off"), Limit=6,
                    TrigSets=S("none", "partial", "final"), **base),
-                addr,
+                addr, plmn,
                 # one-time events of a subscriber that also has sessions (their records share the subscriber's file)
                 sl("events", 500, Events=True, EvTypes=S("", "IEC"), MaxSess=2, MaxSteps=4, CreateConts=S(0), Modes=S("off"),
                    TrigSets=S("none", "partial"), **base),
@@ -207,7 +210,7 @@ def cfg(pid, tier):
                    TrigSets=S("none", "partial", "final"), **base),
                 sl("two-rg", 4000, RGs=S("1", "2"), TwoEntries=True, MaxSess=2, MaxSteps=4, Modes=S("on", "off"), Limit=6,
                    TrigSets=S("none", "partial", "final"), **base),
-                addr,
+                addr, plmn,
                 sl("events", 4000, Events=True, EvTypes=S("", "IEC", "PEC"), MaxSess=2, MaxSteps=5, CreateConts=S(0), Modes=S("off"),
                    TrigSets=S("none", "partial"), **base),
             ]
